@@ -115,6 +115,10 @@ def run_prop(chk, prop, seed):
 
 
 def main():
+    # one evaluation at a time (the evaluation worktree and harness copy are shared)
+    import fcntl
+    lock = open('/tmp/mut/eval.lock', 'w')
+    fcntl.flock(lock, fcntl.LOCK_EX)
     outdir, n = sys.argv[1], int(sys.argv[2])
     props = sys.argv[3:]
     wt = os.path.join(os.path.dirname(outdir.rstrip('/')), os.path.basename(outdir.rstrip('/'))[:3])
